@@ -19,6 +19,8 @@
 #include "K_rda_ax_offset.c"
 #include "K_rda_rpr.c"
 #include "K_rda_fill_rd2seg.c"
+#include "K_pdic_ctor_swap.c"
+#include "K_rda_check.c"
 #include "K_get_num_axial_poss_per_ring_inc.c"
 #include "K_get_segment_num_for_ring_difference.c"
 #include "K_get_segment_axial_pos_num_for_ring_pair.c"
@@ -270,3 +272,11 @@ void h_lemma_rd2seg(void)
   __CPROVER_assert(0, "vacuity canary");
 #endif
 }
+
+void h_K_pdic_ctor_swap(void)
+{
+  struct PDI2* p;
+  g_s = nondet_int(); g_old_min = nondet_int(); g_old_max = nondet_int();
+  K_pdic_ctor_swap(p);
+}
+void h_K_rda_check(void) { struct PDI2* p; g_s = nondet_int(); g_error = 0; K_rda_check(p); }
